@@ -1,6 +1,7 @@
 import ClusterVerif.Spec.C10
 import ClusterVerif.Model.C10Source
 import ClusterVerif.Gen.C10
+import ClusterVerif.Gen.C10Sem
 import ClusterVerif.Lemmas.C04
 import ClusterVerif.Lemmas.C10
 import ClusterVerif.Lemmas.C10Dist
@@ -1270,5 +1271,191 @@ theorem short_xor_two_closest :
     hA ≠ hB ∧ isClosestShortXor twoPeers 1 [2] hC = true ∧ isClosestShortXor twoPeers 2 [1] hC = true := by decide
 
 end ByteLevel
+
+/-! ## Semantic tie (round 8b): `getTrustedPeers`, `distances`, `isClosest`, the two callers — go/ast → `Gen/C10Sem.lean`,
+interpreted by `Model/C10Sem.lean`. The candidate set of the closest-peer test is a function of the agreed peerset only. -/
+section SemanticTie
+open CV.C10.Sem
+
+theorem gen_sem_getTrustedPeers : GenSem.getTrustedPeers = Sem.Expected.getTrustedPeers := rfl
+theorem gen_sem_distances : GenSem.distances = Sem.Expected.distances := rfl
+theorem gen_sem_isClosest : GenSem.isClosest = Sem.Expected.isClosest := rfl
+theorem gen_sem_alertSite : GenSem.alertSite = Sem.Expected.alertSite := rfl
+theorem gen_sem_syncSite : GenSem.syncSite = Sem.Expected.syncSite := rfl
+theorem gen_sem_xor : GenSem.xor = Sem.Expected.xor := rfl
+/-- `distances()` reads nothing of the receiver but the agreed peerset (through `getTrustedPeers`) and the own id -/
+theorem gen_sem_distances_reads_agreed_only : GenSem.distances.reads = Sem.Expected.agreedReads := rfl
+
+/-- the translated `getTrustedPeers`, interpreted, is `others` of the model — for every world, member, excluded peer, local view -/
+theorem sem_filter_eq_others (w : World) (l : Local) (self : Nat) (ex : Option Nat) :
+    filterCands GenSem.getTrustedPeers w l self ex = some (others w self ex) := by
+  rw [gen_sem_getTrustedPeers]
+  simp only [filterCands, Sem.Expected.getTrustedPeers, allKnown, List.all_cons, List.all_nil, List.isEmpty_nil, Bool.and_self,
+    beq_self_eq_true, if_true, others]
+  congr 1
+  apply List.filter_congr
+  intro p _
+  simp only [evalSkip, evalAtom, Option.getD_some, Bool.or_false, Bool.not_or, bne, Bool.and_assoc]
+
+/-- the checker `distances(exclude)` builds at `self`: own id and `others` -/
+theorem sem_checker_eq_others (w : World) (l : Local) (self : Nat) (ex : Option Nat) :
+    checkerOf GenSem.distances GenSem.getTrustedPeers w l self ex = some (self, others w self ex) := by
+  have h := sem_filter_eq_others w l self ex
+  rw [gen_sem_distances]
+  simp only [checkerOf, Sem.Expected.distances, candsOf, evalArg, Option.bind_some, h, Option.map_some, beq_self_eq_true,
+    List.isEmpty_nil, Bool.and_self, if_true]
+
+/-- **the candidate set is a function of the agreed peerset only**: whatever two members' private views (`Local`: the peers
+their own monitors hold valid pings for) are, the translated `distances()` hands the same list to the checker -/
+theorem sem_candidates_agreed_only (w : World) (l l' : Local) (self : Nat) (ex : Option Nat) :
+    checkerOf GenSem.distances GenSem.getTrustedPeers w l self ex = checkerOf GenSem.distances GenSem.getTrustedPeers w l' self ex := by
+  rw [sem_checker_eq_others, sem_checker_eq_others]
+
+theorem closestLoop_expected (hc hl : Nat) (hs : List Nat) :
+    closestLoop Sem.Expected.isClosest hc hl (hc ^^^ hl) hs = some (hs.all (fun h => !decide (hl ^^^ hc > h ^^^ hc))) := by
+  induction hs with
+  | nil => rfl
+  | cons h t ih =>
+    simp only [closestLoop, Sem.Expected.isClosest, opndVal, xor2, cmpHolds, List.all_cons]
+    by_cases hgt : hc ^^^ hl > h ^^^ hc
+    · have : hl ^^^ hc > h ^^^ hc := by rw [Nat.xor_comm hl hc]; exact hgt
+      simp [hgt, this]
+    · have : ¬ hl ^^^ hc > h ^^^ hc := by rw [Nat.xor_comm hl hc]; exact hgt
+      simp only [hgt, this, decide_false, Bool.not_false, Bool.true_and]
+      exact ih
+
+/-- the translated `isClosest`, interpreted over the hash values: no candidate strictly closer -/
+theorem sem_closest_eq_model (hc hl : Nat) (hs : List Nat) :
+    closestOf GenSem.isClosest hc hl hs = some (hs.all (fun h => !decide (hl ^^^ hc > h ^^^ hc))) := by
+  rw [gen_sem_isClosest]
+  have := closestLoop_expected hc hl hs
+  simp only [closestOf, Sem.Expected.isClosest, opndVal, xor2, List.isEmpty_nil, Bool.and_self, if_true] at this ⊢
+  exact this
+
+/-- **the whole decision as translated = `isClosest` of the model**, for every agreed world, every private view, every member,
+excluded peer and cid: the round theorems speak about what the translated code decides -/
+theorem sem_decision_eq_isClosest (w : World) (l : Local) (self : Nat) (ex : Option Nat) (c : Nat) :
+    Sem.decide? GenSem.distances GenSem.getTrustedPeers GenSem.isClosest w l self ex c = some (isClosest w self ex c) := by
+  simp only [Sem.decide?, sem_checker_eq_others, sem_closest_eq_model, isClosest, List.all_map]
+  rfl
+
+/-- two members of an agreed round (same world, ANY private views) with distinct hashes are never both closest — the
+statement of `closest_at_most_one` about the translated code -/
+theorem sem_at_most_one_decides (w : World) (la lb : Local) (ex : Option Nat) (c a b : Nat)
+    (ha : a ∈ w.members.map (·.1)) (hb : b ∈ w.members.map (·.1))
+    (hea : some a ≠ ex) (heb : some b ≠ ex) (hta : a ∉ w.untrusted) (htb : b ∉ w.untrusted)
+    (hdist : w.peerHash a = w.peerHash b → a = b)
+    (hca : Sem.decide? GenSem.distances GenSem.getTrustedPeers GenSem.isClosest w la a ex c = some true)
+    (hcb : Sem.decide? GenSem.distances GenSem.getTrustedPeers GenSem.isClosest w lb b ex c = some true) : a = b := by
+  rw [sem_decision_eq_isClosest] at hca hcb
+  exact closest_at_most_one w ex c a b ha hb hea heb hta htb hdist (Option.some.inj hca) (Option.some.inj hcb)
+
+/-- a 3-member world: hashes 1, 2, 4; every cid hashes to 0, so member 1 is closest -/
+def semW : World := { members := [(1, 1), (2, 2), (3, 4)], cidHash := [(7, 0)], untrusted := [] }
+
+example : Sem.decide? GenSem.distances GenSem.getTrustedPeers GenSem.isClosest semW ⟨[3]⟩ 1 none 7 = some true := by decide
+example : Sem.decide? GenSem.distances GenSem.getTrustedPeers GenSem.isClosest semW ⟨[3]⟩ 2 none 7 = some false := by decide
+
+/-- refutation (shape of seeded change C10g): when `distances()` keeps only the trusted peers its LOCAL monitor holds a valid
+ping for, the candidate set is NOT a function of the agreed peerset: same world, two private views, two lists -/
+theorem sem_local_ping_filter_not_agreed_only :
+    ¬ (∀ (w : World) (l l' : Local) (self : Nat) (ex : Option Nat),
+        checkerOf Sem.Expected.localPingCtor Sem.Expected.getTrustedPeers w l self ex
+          = checkerOf Sem.Expected.localPingCtor Sem.Expected.getTrustedPeers w l' self ex) := by
+  intro h
+  have := h semW ⟨[1, 3]⟩ ⟨[3]⟩ 2 none
+  revert this
+  decide
+
+/-- … and then two members that agree on the peerset are both closest to the same cid (member 2 holds no valid ping of
+member 1): the "exactly one peer acts" rule no longer follows from agreement -/
+theorem sem_local_ping_filter_two_closest :
+    Sem.decide? Sem.Expected.localPingCtor Sem.Expected.getTrustedPeers Sem.Expected.isClosest semW ⟨[2, 3]⟩ 1 none 7 = some true ∧
+    Sem.decide? Sem.Expected.localPingCtor Sem.Expected.getTrustedPeers Sem.Expected.isClosest semW ⟨[3]⟩ 2 none 7 = some true ∧
+    (1 : Nat) ≠ 2 ∧ semW.peerHash 1 ≠ semW.peerHash 2 := by decide
+
+/-- refutations for the guard of `getTrustedPeers`: without the `p == exclude` atom the failed peer is a candidate (and, being
+closest, makes everybody else answer "not me"); without `notTrusted` an untrusted member is -/
+theorem sem_filter_without_exclude_keeps_failed :
+    filterCands { Sem.Expected.getTrustedPeers with skip := [.eqSelf, .notTrusted] } semW ⟨[]⟩ 2 (some 1) = some [1, 3] ∧
+    filterCands Sem.Expected.getTrustedPeers semW ⟨[]⟩ 2 (some 1) = some [3] := by decide
+
+/-- an unrecognised shape is refused, not guessed -/
+theorem sem_unknown_shape_refused (s : String) (w : World) (l : Local) (self : Nat) (ex : Option Nat) (c : Nat) :
+    Sem.decide? { Sem.Expected.distances with others := .other s } Sem.Expected.getTrustedPeers Sem.Expected.isClosest w l self ex c = none := by
+  simp [Sem.decide?, checkerOf, candsOf, Sem.Expected.distances]
+
+end SemanticTie
+
+/-! ## Whole histories (round 8b): every alert sequence at one handler; expiry over several sweep rounds -/
+section Sequences
+
+/-- one alert of any kind (ping for any peer under any peerset view, or skipped) keeps well-formedness and the key set -/
+theorem handleEv_keys (pc : PeerCfg) (st : PinMap) (hw : st.wf = true) (e : AlertEv) (c : Nat) :
+    (handleEv pc st e).wf = true ∧ ((handleEv pc st e).get c).isSome = (st.get c).isSome := by
+  cases e with
+  | skipped => exact ⟨hw, rfl⟩
+  | ping w f ch =>
+    exact ⟨act_inv (alertSweeper f) ⟨w, pc, ch⟩ st hw, onAlert_keys w pc f ch st hw c⟩
+
+/-- **every alert sequence** (hint 4): whatever alerts a member's handler receives — several failed peers, the same peer
+repeatedly, non-members, alerts it can do nothing about, each seen under another peerset view — no cid leaves the pinset
+and none is added -/
+theorem alerts_never_remove (pc : PeerCfg) (evs : List AlertEv) (st : PinMap) (hw : st.wf = true) (c : Nat) :
+    (handleAlerts pc st evs).wf = true ∧ ((handleAlerts pc st evs).get c).isSome = (st.get c).isSome := by
+  induction evs generalizing st with
+  | nil => exact ⟨hw, rfl⟩
+  | cons e es ih =>
+    obtain ⟨h1, h2⟩ := handleEv_keys pc st hw e c
+    obtain ⟨i1, i2⟩ := ih (handleEv pc st e) h1
+    exact ⟨i1, by rw [← h2]; exact i2⟩
+
+/-- a follower, or a member with re-pinning disabled, leaves the pinset as it is for every alert sequence -/
+theorem alerts_inert_when_disabled (pc : PeerCfg) (h : (pc.follower || pc.disableRepin) = true) (evs : List AlertEv) (st : PinMap) :
+    handleAlerts pc st evs = st := by
+  induction evs generalizing st with
+  | nil => rfl
+  | cons e es ih =>
+    have : handleEv pc st e = st := by
+      cases e with
+      | skipped => rfl
+      | ping w f ch => simp only [handleEv, onAlert, h, if_true]
+    simp only [handleAlerts, List.foldl_cons, this]
+    exact ih st
+
+example : ((handleAlerts exA0.pc [exPin] [.skipped, .ping exW 1 exA0.ch, .ping exW 2 exA0.ch, .ping exW 9 exA0.ch]).get 5).isSome = true := by decide
+
+/-- a cid the pinset does not hold gets no operation in a sync round (any schedule, both disciplines) and stays absent -/
+theorem sync_round_absent (w : World) (sched : List Actor) (pre : PinMap)
+    (hA : AgreedRound w none sched) (hI : allData pre) (c : Nat) (hc : pre.get c = none) :
+    roundFor c (roundSync sched pre).2 = [] ∧ (roundSync sched pre).1.get c = none ∧
+    roundFor c (snapLogsSync sched pre) = [] := by
+  rcases sync_round_cid w sched pre hA hI c with ⟨d, _, _, h1, h2, h3⟩ | ⟨_, h1, h2, h3⟩
+  · obtain ⟨s1, s2⟩ := syncAct_spec d pre hI c
+    simp only [hc] at s2
+    rw [s2] at s1 h1
+    simp only [List.map_nil] at h1
+    refine ⟨h1, ?_, by rw [h3, h1]⟩
+    rw [h2, s1, hc]; rfl
+  · exact ⟨h1, by rw [h2, hc], h3⟩
+
+/-- **expiry once over several sweeps** (hint 2): an expired pin whose closest member is not a follower is unpinned exactly
+once by the first sweep round; a later sweep round — other members, other schedule, another agreed peerset, any clock — logs
+nothing for it and it stays gone -/
+theorem expiry_once_over_rounds (w w' : World) (s1 s2 : List Actor) (pre : PinMap)
+    (hA : AgreedRound w none s1) (hA' : AgreedRound w' none s2) (hI : allData pre)
+    (x : Pin) (hx : pre.get x.cid = some x) (hexp : expired x = true)
+    (d : Actor) (hd : d ∈ s1) (hc : isClosest w d.pc.self none x.cid = true) (hf : d.pc.follower = false) :
+    roundFor x.cid (roundSync s1 pre).2 = [(d.pc.self, .logUnpin x.cid)] ∧
+    roundFor x.cid (roundSync s2 (roundSync s1 pre).1).2 = [] ∧
+    (roundSync s2 (roundSync s1 pre).1).1.get x.cid = none := by
+  obtain ⟨r1, r2, _⟩ := ((expiry_once w s1 pre hA hI x hx).2 hexp d hd hc).1 hf
+  obtain ⟨q1, q2, _⟩ := sync_round_absent w' s2 _ hA' (sync_state_is_commit s1 pre hI).1 x.cid r2
+  exact ⟨r1, q1, q2⟩
+
+example : roundFor 5 (roundSync [exA2, exA0] [exOld]).2 = [(0, .logUnpin 5)] ∧
+    roundFor 5 (roundSync [exA0, exA2] (roundSync [exA2, exA0] [exOld]).1).2 = [] := by decide
+
+end Sequences
 
 end CV.C10
